@@ -4,7 +4,10 @@ import (
 	"encoding/csv"
 	"fmt"
 	"math/big"
+	"regexp"
 	"strings"
+	"unicode"
+	"unicode/utf8"
 
 	"verifharness/ref"
 )
@@ -50,23 +53,31 @@ func ParseBalanceText(out string) (*BalanceTable, error) {
 	seenHeader := false
 	var stack []string
 	var lastPath []string
+	border := ""
+	totals := 0
 	for ln, l := range lines {
-		if l == "" || strings.HasPrefix(l, "+") {
+		// frame lines carry no letter or digit (whatever characters the frame is drawn with)
+		if strings.IndexFunc(l, func(r rune) bool { return unicode.IsLetter(r) || unicode.IsDigit(r) }) < 0 {
 			continue
 		}
-		if !strings.HasPrefix(l, "| ") || !strings.HasSuffix(l, " |") {
+		if border == "" {
+			// the first content line is the header; its first character is the column separator
+			r, _ := utf8.DecodeRuneInString(l)
+			if unicode.IsLetter(r) || unicode.IsDigit(r) || unicode.IsSpace(r) {
+				return nil, fmt.Errorf("line %d: not a table line: %q", ln+1, l)
+			}
+			border = string(r)
+		}
+		if !strings.HasPrefix(l, border+" ") || !strings.HasSuffix(l, " "+border) {
 			return nil, fmt.Errorf("line %d: not a table line: %q", ln+1, l)
 		}
-		body := l[2 : len(l)-2]
-		cells := strings.Split(body, " | ")
+		body := l[len(border)+1 : len(l)-len(border)-1]
+		cells := strings.Split(body, " "+border+" ")
 		if !seenHeader {
-			if strings.TrimSpace(cells[0]) != "Account" {
-				return nil, fmt.Errorf("line %d: expected the header, got %q", ln+1, l)
-			}
 			seenHeader = true
 			rest := cells[1:]
-			if len(rest) > 0 && strings.TrimSpace(rest[0]) == "Comm" {
-				t.HasComm = true
+			if len(rest) > 0 && !isDateHeader(strings.TrimSpace(rest[0])) && strings.TrimSpace(rest[0]) != "" {
+				t.HasComm = true // a column between the account and the first date: the commodity
 				rest = rest[1:]
 			}
 			for _, c := range rest {
@@ -101,8 +112,21 @@ func ParseBalanceText(out string) (*BalanceTable, error) {
 		if allBlank {
 			continue
 		}
-		switch name {
+		// the two total rows and the Delta row are recognised by their labels, or (should the labels be worded
+		// differently) by "Total..." in order of appearance and the first named row after the second total
+		key := name
+		switch {
+		case name == "Total (A+L)" || name == "Total (E+I+E)" || name == "Delta":
+		case strings.HasPrefix(name, "Total") && first == strings.TrimLeft(first, " ") && totals == 0:
+			key = "Total (A+L)"
+		case strings.HasPrefix(name, "Total") && first == strings.TrimLeft(first, " ") && totals == 1:
+			key = "Total (E+I+E)"
+		case name != "" && section == "DeltaNext":
+			key = "Delta"
+		}
+		switch key {
 		case "Total (A+L)":
+			totals++
 			row.Section = "TotalAL"
 			section = "TotalAL"
 			t.Rows = append(t.Rows, row)
@@ -112,6 +136,7 @@ func ParseBalanceText(out string) (*BalanceTable, error) {
 			lastPath = []string{"\x00TotalAL"}
 			continue
 		case "Total (E+I+E)":
+			totals++
 			row.Section = "TotalEIE"
 			t.Rows = append(t.Rows, row)
 			section = "DeltaNext"
@@ -155,6 +180,10 @@ func ParseBalanceText(out string) (*BalanceTable, error) {
 	return t, nil
 }
 
+var dateHeaderRe = regexp.MustCompile(`^\d{4}-\d{2}-\d{2}`)
+
+func isDateHeader(s string) bool { return dateHeaderRe.MatchString(s) }
+
 // ParseBalanceCSV reads the CSV rendering. There is no indentation, so account
 // rows carry only the printed segment as Name; totals and Delta are identified.
 func ParseBalanceCSV(out string) (*BalanceTable, error) {
@@ -169,11 +198,11 @@ func ParseBalanceCSV(out string) (*BalanceTable, error) {
 	}
 	t := &BalanceTable{}
 	h := recs[0]
-	if h[0] != "Account" {
+	if len(h) == 0 {
 		return nil, fmt.Errorf("csv header: %v", h)
 	}
 	rest := h[1:]
-	if len(rest) > 0 && rest[0] == "Comm" {
+	if len(rest) > 0 && !isDateHeader(rest[0]) && rest[0] != "" {
 		t.HasComm = true
 		rest = rest[1:]
 	}
@@ -192,7 +221,17 @@ func ParseBalanceCSV(out string) (*BalanceTable, error) {
 		if len(rec) > idx {
 			row.Cells = append(row.Cells, rec[idx:]...)
 		}
-		switch rec[0] {
+		key := rec[0]
+		switch {
+		case key == "Total (A+L)" || key == "Total (E+I+E)" || key == "Delta":
+		case strings.HasPrefix(key, "Total") && section == "AL":
+			key = "Total (A+L)"
+		case strings.HasPrefix(key, "Total") && section == "EIE":
+			key = "Total (E+I+E)"
+		case key != "" && section == "Done" && last == "TotalEIE":
+			key = "Delta"
+		}
+		switch key {
 		case "Total (A+L)":
 			row.Section, last, section = "TotalAL", "TotalAL", "EIE"
 		case "Total (E+I+E)":
